@@ -321,6 +321,32 @@ int vf_aint_exchange(struct vf_atomic_int *a, int v, int mo)
 #define vf_aint_postinc(a) vf_aint_fetch_add(a, 1, VF_MO_SEQ_CST)
 #define vf_aint_postdec(a) vf_aint_fetch_add(a, -1, VF_MO_SEQ_CST)
 
+/* the same model for the other integral atomic types (a type change of a counter is a plausible
+   edit): unsigned arithmetic wraps (defined behaviour), signed arithmetic must not overflow */
+#define VF_ATOMIC_MODEL(N, T, IS_SIGNED, TMIN, TMAX) \
+T vf_a_##N##_load(struct vf_atomic_##N *a, int mo) \
+{ VF_HOOK_ATOMIC_PRE(a); T r = a->v; VF_HOOK_ATOMIC_READ(a, r, mo); VF_HOOK_ATOMIC_POST(a); return r; } \
+void vf_a_##N##_store(struct vf_atomic_##N *a, T v, int mo) \
+{ VF_HOOK_ATOMIC_PRE(a); T o = a->v; a->v = v; VF_HOOK_ATOMIC_WRITE(a, o, v, mo, 0); VF_HOOK_ATOMIC_POST(a); } \
+T vf_a_##N##_fetch_add(struct vf_atomic_##N *a, long d, int mo) \
+{ VF_HOOK_ATOMIC_PRE(a); T o = a->v; \
+  if (IS_SIGNED) __CPROVER_assert((long)o + d >= (long)(TMIN) && (long)o + d <= (long)(TMAX), "[arith] atomic integer overflow"); \
+  T nv = (T)vf_s2u_64((long)o + d); a->v = nv; \
+  VF_HOOK_ATOMIC_WRITE(a, o, nv, mo, 1); VF_HOOK_ATOMIC_POST(a); return o; } \
+T vf_a_##N##_exchange(struct vf_atomic_##N *a, T v, int mo) \
+{ VF_HOOK_ATOMIC_PRE(a); T o = a->v; a->v = v; VF_HOOK_ATOMIC_WRITE(a, o, v, mo, 1); VF_HOOK_ATOMIC_POST(a); return o; } \
+T vf_a_##N##_assign(struct vf_atomic_##N *a, T v) { vf_a_##N##_store(a, v, VF_MO_SEQ_CST); return v; }
+#pragma CPROVER check push
+#pragma CPROVER check disable "conversion"
+VF_ATOMIC_MODEL(unsigned_short, unsigned short, 0, 0, 65535)
+VF_ATOMIC_MODEL(short, short, 1, -32768, 32767)
+VF_ATOMIC_MODEL(unsigned_char, unsigned char, 0, 0, 255)
+VF_ATOMIC_MODEL(signed_char, signed char, 1, -128, 127)
+VF_ATOMIC_MODEL(unsigned_int, unsigned int, 0, 0, 4294967295L)
+VF_ATOMIC_MODEL(long, long, 1, (-9223372036854775807L - 1), 9223372036854775807L)
+VF_ATOMIC_MODEL(unsigned_long, unsigned long, 0, 0, 0)
+#pragma CPROVER check pop
+
 _Bool vf_abool_load(struct vf_atomic_bool *a, int mo)
 {
   VF_HOOK_ATOMIC_PRE(a);
